@@ -53,6 +53,8 @@ def configs(tier):
                 if entry in ('Gillespie_SIS',):
                     c['truncate'] = True
                 out.append(c)
+                if entry in CONT_SIR and g in ('K2', 'P3') and not R0 and len(I0) == 1:
+                    out.append(dict(c, tmax='sym', tags=c['tags'] + ['tmax:sym']))
     return out
 
 
